@@ -277,16 +277,46 @@ func TestVerifC13(t *testing.T) {
 			}
 			if !allFound {
 				if gen == "glued" {
-					// KF-C13-1 signature: a boundary of the occurrence falls strictly inside a token
+					// KF-C13-1 signature: a boundary of the occurrence falls strictly inside a
+					// token AND the value is reported with exactly the whole-token range that
+					// encloses the occurrence (the documented token granularity); a match that
+					// does not enclose the copy, or no match at all, is not this finding
 					off := strings.Index(normU, normV[pi])
 					end := off + len(normV[pi])
 					inside := false
+					wantStart, wantEnd := off, end
 					for _, tk := range tokenizer.Tokenize(normU) {
-						if (tk.Offset < off && off < tk.Offset+len(tk.Text)) || (tk.Offset < end && end < tk.Offset+len(tk.Text)) {
+						ts, te := tk.Offset, tk.Offset+len(tk.Text)
+						if (ts < off && off < te) || (ts < end && end < te) {
 							inside = true
 						}
+						if ts <= off && off < te {
+							wantStart = ts
+						}
+						if ts < end && end <= te {
+							wantEnd = te
+						}
 					}
-					if inside {
+					encloses := false
+					for _, m := range ms {
+						if m.Name == keys[pi] && m.Offset == wantStart && m.Offset+m.Extent == wantEnd {
+							encloses = true
+						}
+					}
+					if inside && !encloses {
+						// token granularity can also mean "nothing to report": the whole-token
+						// range scores zero against the value (a tiny value inside a long token)
+						any := false
+						for _, m := range ms {
+							if m.Name == keys[pi] {
+								any = true
+							}
+						}
+						if !any && wantStart < wantEnd && levDist(normU[wantStart:wantEnd], normV[pi]) <= 0 {
+							encloses = true
+						}
+					}
+					if inside && encloses {
 						cs.knownFinding("KF-C13-1", "glued-copy-token-granular", "%s; got %s", missing, sFmtMatches(ms))
 						cs.nontrivial(unknown)
 						return
